@@ -9,7 +9,10 @@ CHECK = {
             "role(); rejection by throw before or after the grant calls; a deletion clause granting from oldDoc), f2 derived from f1 by 1-3 edits (channel move, grant added / "
             "removed / moved, rejection added), unrelated, or identical, x regenerate_sequences on/off, x seeded admin grants of 4 users (one holds *) and 2 roles. "
             "distinct_nontrivial = distinct (shapes, bodies, f1, f2, option) whose first resync changed >= 1 document and f1 != f2. 40 generated cases quick, 600 thorough, "
-            "plus 6 fixed minimal histories (the shortest history of each input class resync was found to mishandle, and two controls). The reference for a single leaf is "
+            "plus 9 fixed minimal histories (the shortest history of each input class resync was found to mishandle, and controls). Load schedule: the pushes are split at a "
+            "seeded point; a seeded subset (none / some / all) of the principals is loaded (GET _user/_role + one authenticated request) between the two halves and another "
+            "subset after the last push; 0-2 late documents change only role() grants; nobody else is read before the resync, so principals reach the resync with channels "
+            "and roles independently computed-and-valid or pending invalidation (stored state read raw and counted). The reference for a single leaf is "
             "the new function evaluated on that revision's body alone (written as a document of its own in the fresh database); the reference for principals and visibility "
             "is the fresh database.",
     "parts": [
@@ -31,6 +34,13 @@ CHECK = {
         "resync.writes_refused_while_offline": 23,
         "resync.leaves_rejected_by_f2_compared": 12,
         "resync.fixed_histories_run": 1,
+        # load schedules (functions of the seed only, not of machine speed)
+        "resync.cases_no_principal_loaded_before_resync": 3,
+        "resync.cases_some_principals_loaded_before_resync": 5,
+        "resync.cases_all_principals_loaded_before_resync": 3,
+        "resync.principals_not_loaded_before_resync": 37,
+        "resync.writes_after_first_load": 50,
+        "resync.users_at_resync_channels_valid_roles_pending": 3,
     },
     "assumptions": [
         "sync functions read body fields only (never stored state), so 'from scratch' is defined per revision; f1 never rejects",
